@@ -403,6 +403,7 @@ TRUSTED_COMMON = [
     "Lean 4.33 kernel/elaborator and lake; axioms allowed: propext, Classical.choice, Quot.sound",
     "the hand-written Lean model is tied to /repo by differential execution (this run) — the tie is a test, exhaustive only where stated",
     "Rust harness /verif/harness (oq3-run) and the line codecs on both sides",
+    "the translator vf/extract.py (regex-based, tables only): SyntaxKind, token sets, operator tables, generated accessors, and the standard-library gate table / built-in constants of symbols.rs are regenerated into Oq3/Gen on every run; it refuses a source item whose shape it does not recognise",
 ]
 
 
